@@ -16,11 +16,20 @@ PROFILES = {
     # with normalization rules
     'normalize': dict(max_depth=3, normalization=0.5, logical=0.15),
     'mixed': dict(max_depth=3, normalization=0.25, logical=0.25, named=0.3),
+    'corpus': dict(max_depth=3, normalization=0.25, logical=0.25),
 }
 
 
 def make_case(seed, index, profile='validate', norm_cfg=None):
     """Returns (case, generator) or (None, reason).  Deterministic in (seed, index, profile)."""
+    if index < 0:
+        import copy as _copy
+        from . import corpus
+        for k, c in corpus.corpus_cases(True):
+            if k == index:
+                return dict(_copy.deepcopy({x: y for x, y in c.items() if x not in ('schema', 'cfg')}),
+                            schema=_copy.deepcopy(c['schema']), cfg=_copy.deepcopy(c['cfg']), seed=seed), \
+                    gen.Gen(gen.case_rng(seed, index), **PROFILES['mixed'])
     rng = gen.case_rng(seed, index)
     params = PROFILES[profile]
     g = gen.Gen(rng, **params)
@@ -62,8 +71,16 @@ def accepted(case):
 ONLY = None      # replay mode: (seed, index) of the one case to yield
 
 
-def stream(seed, n, profiles, start=0):
-    """yield accepted cases; profile chosen round-robin"""
+def stream(seed, n, profiles, start=0, corpus=True):
+    """yield the hand-written corpus cases first (index < 0), then generated cases; profile chosen round-robin"""
+    if corpus and start == 0:
+        from . import corpus as _corpus
+        norm_ok = any(PROFILES[p].get('normalization', 0) > 0 for p in profiles)
+        for k, c in _corpus.corpus_cases(norm_ok):
+            if ONLY is not None and (seed, k) != ONLY:
+                continue
+            case, g = make_case(seed, k)
+            yield k, 'corpus', case, g
     for i in range(start, start + n):
         if ONLY is not None and (seed, i) != ONLY:
             continue
